@@ -264,11 +264,9 @@ func (d *Decoder) readTypedList(tag byte) (interface{}, error) {
 
 		v := EnsureRawValue(item)
 		if isVariableArr {
-			if !v.IsValid() {
-				// a null element
-				v = reflect.Zero(aryType.Elem())
-			}
-			aryValue = reflect.Append(aryValue, v)
+			// the element takes the list's element type as in the fixed-length forms (an object arrives as a
+			// pointer, a []T list holds values; a null element is the zero value)
+			aryValue = reflect.Append(aryValue, convertTo(aryType.Elem(), v))
 			holder.change(aryValue)
 		} else {
 			if j >= aryValue.Len() {
